@@ -8,6 +8,8 @@
 //   -DVH_ARGMODE=0 prototype void(Arg)            dispatch(key, Arg(a))            (event excluded)
 //               =1 prototype void(Key, Arg)       ArgumentPassingIncludeEvent, dispatch(Key(key), Arg(a))
 //               =2 prototype void(const Key &, const Arg &) ArgumentPassingIncludeEvent
+//   -DVH_GETEVENT=1 (with VH_ARGMODE=1) the policy's getEvent returns a std::reference_wrapper to the key
+//               ARGUMENT instead of a copy: the dispatcher must copy the key before it forwards the arguments
 //   -DVH_POLICY=0 default  1 SingleThreading  2 SpinLock
 //   -DVH_MAP=0 default map selection  1 force std::map  2 force std::unordered_map
 #include "common.h"
@@ -96,6 +98,9 @@ struct Policies
 	using Threading = eventpp::GeneralThreading<eventpp::SpinLock>;
 #endif
 	using Callback = Cb;
+#if defined(VH_GETEVENT) && VH_GETEVENT == 1
+	static std::reference_wrapper<const Key> getEvent(const Key & k, const Arg &) { return std::cref(k); }
+#endif
 #if VH_ARGMODE != 0
 	using ArgumentPassingMode = eventpp::ArgumentPassingIncludeEvent;
 #else
